@@ -127,8 +127,9 @@ namespace Pistache::Tcp
                 if (!isRaw())
                     return BufferHolder(_fd, size_, offset);
 
-                auto detached = _raw.copy(offset);
-                return BufferHolder(detached);
+                // keep the whole buffer and remember how much of it is already out:
+                // the write's promise is fulfilled with the buffer's full size
+                return BufferHolder(_raw, offset);
             }
 
         private:
